@@ -182,8 +182,8 @@ fn build_seq(choice: &[(u32, u32, Option<(u32, u32, u32, Option<u32>)>)]) -> Opt
       last_col = None;
     }
     if let Some(lc) = last_col {
-      if *c <= lc {
-        return None; // not sorted
+      if *c < lc {
+        return None; // not sorted (equal positions are sorted: the later segment decides)
       }
     }
     last_col = Some(*c);
